@@ -226,6 +226,8 @@ type Config struct {
 type workItem struct {
 	Idx   int
 	Shard int
+	// bound levels of the iterative deepening this item explores (From..To)
+	From, To int
 }
 
 // Main is the entry point of a harness binary built on the explorer.
@@ -282,10 +284,27 @@ func Main(cfg Config) {
 			n = 1
 		}
 		for k := 0; k < n; k++ {
-			items = append(items, workItem{i, k})
+			if s.Unbounded || s.Bound < 1 {
+				continue
+			}
+			items = append(items, workItem{i, k, 0, s.Bound - 1})
 		}
 	}
-	stats := runPool(items, *procs, *tier, *only, deadline, r)
+	// second phase: everybody's deepest level (and the unbounded explorations), in the time that is left
+	for i, s := range scs {
+		n := s.Shards
+		if n < 1 {
+			n = 1
+		}
+		for k := 0; k < n; k++ {
+			if s.Unbounded || s.Bound < 1 {
+				items = append(items, workItem{i, k, 0, Infinite})
+			} else {
+				items = append(items, workItem{i, k, s.Bound, s.Bound})
+			}
+		}
+	}
+	stats := mergeLevels(runPool(items, *procs, *tier, *only, deadline, r), items)
 	minBound := Infinite
 	outcomes := map[string]bool{}
 	var perScenario []map[string]any
@@ -338,6 +357,91 @@ func Main(cfg Config) {
 	r.Finish()
 }
 
+// mergeLevels joins the two items of one (scenario, shard) - lower levels, deepest level - into one Stats:
+// the deepest level counts as completed only if the lower ones were; executions, steps and findings add up.
+func mergeLevels(stats []*Stats, items []workItem) []*Stats {
+	type key struct{ idx, shard int }
+	lower := map[key]*Stats{}
+	var out []*Stats
+	for i, it := range items {
+		st := stats[i]
+		k := key{it.Idx, it.Shard}
+		if it.From == 0 && it.To != Infinite {
+			lower[k] = st // may be nil (worker died)
+			continue
+		}
+		if it.From == 0 { // single item (unbounded or bound 0)
+			out = append(out, st)
+			continue
+		}
+		lo := lower[k]
+		switch {
+		case lo == nil && st == nil:
+			out = append(out, nil)
+		case lo == nil:
+			st.BoundCompleted = -1
+			out = append(out, st)
+		case st == nil:
+			out = append(out, lo)
+		default:
+			m := *st
+			if !lo.Exhaustive || len(lo.Found) > 0 || lo.BoundCompleted < it.From-1 {
+				// the lower levels did not complete (or already failed): what they say stands; the deepest
+				// level's executions are still counted
+				m.BoundCompleted = lo.BoundCompleted
+				if m.CapHit == "" {
+					m.CapHit = lo.CapHit
+				}
+			}
+			m.Execs += lo.Execs
+			m.Pruned += lo.Pruned
+			m.Steps += lo.Steps
+			// the schedules of a lower level are executed again at the deepest one: distinct ones are counted once
+			if st.CapHit != "" && lo.DeviatedExecs > m.DeviatedExecs {
+				m.DeviatedExecs = lo.DeviatedExecs
+			}
+			if lo.States > m.States {
+				m.States = lo.States
+			}
+			if lo.MaxSteps > m.MaxSteps {
+				m.MaxSteps = lo.MaxSteps
+			}
+			if lo.MaxThreads > m.MaxThreads {
+				m.MaxThreads = lo.MaxThreads
+			}
+			if lo.MaxChoices > m.MaxChoices {
+				m.MaxChoices = lo.MaxChoices
+			}
+			m.Outcomes = map[string]int{}
+			for o, n := range lo.Outcomes {
+				m.Outcomes[o] += n
+			}
+			for o, n := range st.Outcomes {
+				m.Outcomes[o] += n
+			}
+			seen := map[string]bool{}
+			m.Found = nil
+			for _, f := range append(append([]Found{}, lo.Found...), st.Found...) {
+				if !seen[f.Key] { // the lower level's counterexample has fewer deviations: keep the first
+					seen[f.Key] = true
+					m.Found = append(m.Found, f)
+				}
+			}
+			if m.HarnessErr == "" {
+				m.HarnessErr = lo.HarnessErr
+			}
+			m.Exhaustive = m.CapHit == "" && m.HarnessErr == ""
+			m.CacheFull = m.CacheFull || lo.CacheFull
+			m.WallS += lo.WallS
+			if len(m.Sample) == 0 {
+				m.Sample = lo.Sample
+			}
+			out = append(out, &m)
+		}
+	}
+	return out
+}
+
 func envOr(k, d string) string {
 	if v := os.Getenv(k); v != "" {
 		return v
@@ -351,8 +455,9 @@ func workerLoop(scs []*Scenario) {
 	for in.Scan() {
 		var idx, shard int
 		var dl int64
-		fmt.Sscan(in.Text(), &idx, &shard, &dl)
-		st := Explore(scs[idx], shard, time.UnixMilli(dl))
+		from, to := 0, Infinite
+		fmt.Sscan(in.Text(), &idx, &shard, &dl, &from, &to)
+		st := ExploreLevels(scs[idx], shard, time.UnixMilli(dl), from, to)
 		if len(st.Sample) == 0 {
 			st.Sample = sampleSchedule(scs[idx])
 		}
@@ -430,7 +535,7 @@ func runPool(items []workItem, procs int, tier, only string, deadline time.Time,
 					i := next
 					next++
 					mu.Unlock()
-					fmt.Fprintf(stdin, "%d %d %d\n", items[i].Idx, items[i].Shard, deadline.UnixMilli())
+					fmt.Fprintf(stdin, "%d %d %d %d %d\n", items[i].Idx, items[i].Shard, deadline.UnixMilli(), items[i].From, items[i].To)
 					var st *Stats
 					for {
 						line, err := rd.ReadString('\n')
